@@ -24,7 +24,7 @@ RULE = ("(a) seeded v-spaces (5-40 nodes, degree 2-5 general path and the unifor
         "modes, c*dt in {0, +-tiny, +-fraction of a cell, +-several cells, +-(domain+eps), +-3 domains}, several radii, random "
         "nodal values; every node compared (nodes whose foot is within 1e-9 of an end point excluded when c*dt != 0). "
         "(b) grids [nr,nth,nz,nv] on process grids (1,1),(2,1),(1,2),(2,2),(3,1),(1,3),(2,3),(3,2): random global f and "
-        "potential scattered to the ranks, gridStep then gridStepKeepGradient, every rank's block compared with the "
+        "potential scattered to the ranks, gridStep, gridStepKeepGradient and gridStep again (same operator objects), every rank's block compared with the "
         "reference computed from GLOBAL coordinates.  A class is (level, spline path, boundary mode, shift class) for (a) "
         "and (which of r|z is split, iota class, operator) for (b).")
 ASSUMPTIONS = ["simulated MPI (self-tested) for (b)", "reference = dense collocation solve + de Boor; parallel-gradient reference as in C13",
@@ -170,7 +170,9 @@ def _grid_case(case, spl, adv):
         b1 = sim.block(sim.f)
         vpar.gridStepKeepGradient(sim.f, pgv, dt)
         b2 = sim.block(sim.f)
-        return b1, b2
+        vpar.gridStep(sim.f, sim.phi, parGrad, pgv, dt)          # same operator objects used again (a second time step)
+        b3 = sim.block(sim.f)
+        return b1, b2, b3
 
     w = MPI.run_world(P, prog, schedule="random", seed=case["seed"], timeout=800)
     ev = dict(w.events)
@@ -201,7 +203,7 @@ def _grid_case(case, spl, adv):
     refs = []
     judged_all = []
     nout_tot = 0
-    for _pass in range(2):
+    for _pass in range(3):
         new = np.empty_like(cur)
         judged = np.ones(cur.shape, bool)
         for i in range(nr):
@@ -223,13 +225,15 @@ def _grid_case(case, spl, adv):
     ev["r_split_runs"] = 1 if nprocs[0] > 1 else 0
     ev["nodes_compared"] = 0
     cls = set()
-    for which, name in ((0, "gridStep"), (1, "gridStepKeepGradient")):
+    for which, name in ((0, "gridStep"), (1, "gridStepKeepGradient"), (2, "gridStep-again")):
         G, cover = simrun.assemble([r[which] for r in w.results], tuple(npts))
         if not (cover == 1).all():
             return result(VIOL, cls=[base], events=ev, key="C11:grid-coverage", what="blocks of the ranks do not tile the global grid", witness=wit)
         tol = C * rm.EPS * vref.ref.kappa * fmax * (1 + 30 * 18 / vref.dvmin) + Sp * dt * tol_c * (which + 1) + (C * rm.EPS * 10 if edge == "fEq" else 0)
-        if which == 1:
-            judged = judged_all[0].all(axis=3, keepdims=True) & judged_all[1]
+        if which >= 1:
+            judged = judged_all[which]
+            for prev in range(which):
+                judged = judged & judged_all[prev].all(axis=3, keepdims=True)
         else:
             judged = judged_all[0]
         err_ = np.where(judged, np.abs(G - refs[which]), 0.0)
